@@ -42,9 +42,9 @@ type monitor struct {
 
 var monitors = []monitor{
 	{"cursor", 5000, 500000, 125000},
-	{"matchers", 1600, 20000, 5000},
-	{"select", 600, 6000, 1500},
-	{"promql", 600, 6000, 1500},
+	{"matchers", 1600, 60000, 15000},
+	{"select", 600, 20000, 5000},
+	{"promql", 600, 20000, 5000},
 }
 
 func Main(c *run.Ctx) {
@@ -76,32 +76,19 @@ func Main(c *run.Ctx) {
 		}
 		c.Floor(m.name+": cases decided", total*9/10, 0)
 	}
-	// the children are independent processes; run up to 4 at a time
-	sem := make(chan struct{}, 4)
+	// the monitors run side by side; the children of one monitor run one after the other, so that the
+	// first witness recorded for a signature does not depend on which child finishes first
 	var wg sync.WaitGroup
-	for _, j := range jobs {
+	for _, m := range monitors {
 		wg.Add(1)
-		sem <- struct{}{}
-		go func(j job) {
+		go func(name string) {
 			defer wg.Done()
-			defer func() { <-sem }()
-			out := c.RunChild(run.ChildSpec{Prop: "C17", Name: j.m.name, Cfg: childCfg{Start: j.start, N: j.n}, Timeout: 25 * time.Minute})
-			if out.Completed {
-				return
+			for _, j := range jobs {
+				if j.m.name == name {
+					runJob(c, j.m.name, j.start, j.n)
+				}
 			}
-			if out.TimedOut {
-				c.Undecided(j.m.name + ": child watchdog expired")
-				return
-			}
-			head, frame := run.PanicHead(out.Stderr)
-			if head == "" {
-				c.Undecided(fmt.Sprintf("%s: child ended without a verdict (exit %d): %s", j.m.name, out.Exit, clip(tail(out.Stderr, 300), 300)))
-				return
-			}
-			c.Violation("process-death/"+j.m.name+"/"+frame,
-				fmt.Sprintf("process died in monitor %s: %s at %s; open case %s", j.m.name, head, frame, clip(string(out.OpenCase), 400)),
-				map[string]any{"monitor": j.m.name, "case": out.OpenCase, "stderr": tail(out.Stderr, 4000)})
-		}(j)
+		}(m.name)
 	}
 	wg.Wait()
 
@@ -116,6 +103,25 @@ func Main(c *run.Ctx) {
 	} {
 		c.Floor(f, 1, 0)
 	}
+}
+
+func runJob(c *run.Ctx, name string, start, n int) {
+	out := c.RunChild(run.ChildSpec{Prop: "C17", Name: name, Cfg: childCfg{Start: start, N: n}, Timeout: 25 * time.Minute})
+	if out.Completed {
+		return
+	}
+	if out.TimedOut {
+		c.Undecided(name + ": child watchdog expired")
+		return
+	}
+	head, frame := run.PanicHead(out.Stderr)
+	if head == "" {
+		c.Undecided(fmt.Sprintf("%s: child ended without a verdict (exit %d): %s", name, out.Exit, clip(tail(out.Stderr, 300), 300)))
+		return
+	}
+	c.Violation("process-death/"+name+"/"+frame,
+		fmt.Sprintf("process died in monitor %s: %s at %s; open case %s", name, head, frame, clip(string(out.OpenCase), 400)),
+		map[string]any{"monitor": name, "case": out.OpenCase, "stderr": tail(out.Stderr, 4000)})
 }
 
 func Child(c *run.Ctx, name string) {
